@@ -471,10 +471,12 @@ type FuncContract struct {
 	Track      []string // callee names whose calls are recorded in the ghost ncalls()/lasterr() (direct calls)
 	NoReturn   bool // the function never returns (os.Exit)
 	Yields     []*Clause // facts about every element an iterator result yields (over k, v)
+	YieldsDomain *Clause // set of keys: each is yielded exactly once before a loop over the iterator ends normally
 	Callsites  []*CallsiteSpec
 	FreshResult bool // the (first) result is a newly allocated object nobody else references
 	Opaque     bool // do not verify the body (e.g. outside subset) but not a dependency: listed as trusted
 	Requires   []*Clause
+	Assumes    []*Clause // stated-lemma preconditions: assumed in the body, NOT checked at call sites (listed in evidence)
 	Ensures    []*Clause
 	InternalEnsures []*Clause // proved for the function, not exported to callers (may mention its locals)
 	Modifies   []*Clause
@@ -484,6 +486,7 @@ type FuncContract struct {
 	Callbacks  []*CallbackSpec
 	CbInvParam string  // interpretation of the abstract callback invariant: cbinv <param> = <expr>
 	CbInvBody  *Clause
+	ClientInvBody *Clause // interpretation of the abstract client invariant clientinv() of callees: clientinv = <expr>
 	Captures   []*Clause // facts about captured variables of a closure unit (requires-like)
 	File       string
 	Line       int
@@ -514,6 +517,7 @@ type GhostVar struct {
 type CallsiteSpec struct {
 	Callee   string // suffix of the callee key, e.g. "os.Exit"
 	Requires []*Clause
+	Assumes  []*Clause // stated-lemma facts about the callee's results, assumed after the call (listed in evidence)
 }
 
 type GhostField struct {
@@ -538,7 +542,7 @@ type ContractFile struct {
 var clauseKeywords = map[string]bool{
 	"func": true, "pure": true, "assumed": true, "opaque": true, "requires": true, "ensures": true, "modifies": true,
 	"decreases": true, "loop": true, "split": true, "ghost": true, "spec": true, "def": true, "axiom": true, "extern": true,
-	"spec-import": true, "import": true, "package": true, "captures": true, "callback": true, "fresh-result": true, "cbinv": true, "internal": true, "noreturn": true, "callsite": true, "yields": true, "track": true,
+	"spec-import": true, "import": true, "package": true, "captures": true, "callback": true, "fresh-result": true, "cbinv": true, "internal": true, "noreturn": true, "callsite": true, "yields": true, "track": true, "assumes": true, "yields-domain": true, "clientinv": true,
 }
 
 // parseContractFile reads either a Go file with //@ lines or a raw .gvc file.
@@ -696,11 +700,17 @@ func parseContractFile(path string, pkgPath string) (*ContractFile, error) {
 					return nil, err
 				}
 				cur.Yields = append(cur.Yields, c)
+			case "yields-domain":
+				c, err := mk(rest, l.no)
+				if err != nil {
+					return nil, err
+				}
+				cur.YieldsDomain = c
 			case "callsite":
 				// callsite <callee> requires <expr>
 				f := strings.SplitN(rest, " ", 3)
-				if len(f) < 3 || f[1] != "requires" {
-					return nil, fmt.Errorf("%s:%d: callsite <callee> requires <expr>", path, l.no)
+				if len(f) < 3 || (f[1] != "requires" && f[1] != "assumes") {
+					return nil, fmt.Errorf("%s:%d: callsite <callee> requires|assumes <expr>", path, l.no)
 				}
 				c, err := mk(f[2], l.no)
 				if err != nil {
@@ -716,8 +726,12 @@ func parseContractFile(path string, pkgPath string) (*ContractFile, error) {
 					cs = &CallsiteSpec{Callee: f[0]}
 					cur.Callsites = append(cur.Callsites, cs)
 				}
-				cs.Requires = append(cs.Requires, c)
-			case "requires", "ensures", "decreases", "captures":
+				if f[1] == "assumes" {
+					cs.Assumes = append(cs.Assumes, c)
+				} else {
+					cs.Requires = append(cs.Requires, c)
+				}
+			case "requires", "ensures", "decreases", "captures", "assumes":
 				c, err := mk(rest, l.no)
 				if err != nil {
 					return nil, err
@@ -725,6 +739,8 @@ func parseContractFile(path string, pkgPath string) (*ContractFile, error) {
 				switch kw {
 				case "requires":
 					cur.Requires = append(cur.Requires, c)
+				case "assumes":
+					cur.Assumes = append(cur.Assumes, c)
 				case "ensures":
 					cur.Ensures = append(cur.Ensures, c)
 				case "captures":
@@ -798,6 +814,16 @@ func parseContractFile(path string, pkgPath string) (*ContractFile, error) {
 					return nil, err
 				}
 				cur.InternalEnsures = append(cur.InternalEnsures, c)
+			case "clientinv":
+				k := strings.Index(rest, "=")
+				if k < 0 {
+					return nil, fmt.Errorf("%s:%d: clientinv = <expr>", path, l.no)
+				}
+				c, err := mk(strings.TrimSpace(rest[k+1:]), l.no)
+				if err != nil {
+					return nil, err
+				}
+				cur.ClientInvBody = c
 			case "cbinv":
 				k := strings.Index(rest, "=")
 				if k < 0 {
